@@ -127,6 +127,34 @@ def run(ck):
     for _ in range(n_mal):
         f = L.mutate(rng, gm.formula(4), mstats)
         reqs.append(("malformed", "P " + f, f))
+    # directed values: every comparison in the three orderings, the logical connectives' truth tables,
+    # every arithmetic operator, every table function and integer power at a safe point
+    def vreq(env, f):
+        reqs.append(("directed", "V %s;%s" % (L.bind_str(env), f), f))
+    for op in L.CMPS:
+        for xa, xb in ((1.0, 2.0), (2.0, 2.0), (3.0, 2.0), (-0.0, 0.0)):
+            vreq({"x": xa, "y": xb}, "x %s y ? 10 : 20" % op)
+            vreq({"x": xa, "y": xb}, "!x %s y ? 10 : 20" % op)
+    for c in ("&&", "||"):
+        for xa in (-1.0, 1.0):
+            for xb in (-1.0, 1.0):
+                vreq({"x": xa, "y": xb}, "x > 0 %s y > 0 ? 10 : 20" % c)
+                vreq({"x": xa, "y": xb, "z": 1.0}, "x > 0 %s y > 0 %s z < 0 ? 10 : 20" % (c, "||" if c == "&&" else "&&"))
+    for op in L.OPS:
+        for xa, xb in ((1.5, 2.5), (-3.0, 2.0), (0.1, 0.2), (7.0, -2.0)):
+            vreq({"x": xa, "y": xb}, "x %s y" % op)
+            vreq({"x": xa, "y": xb}, "x %s - y" % op if op != "-" else "-x - y")
+    for u in tab["unary"]:
+        for xa in (0.5, 1.5, -0.25):
+            vreq({"x": xa}, "%s(x)" % u[0])
+    for b in tab["binary"]:
+        for xa, xb in ((1.5, 2.5), (2.5, 1.5), (-1.0, -1.0)):
+            vreq({"x": xa, "y": xb}, "%s(x,y)" % b[0])
+    for n in list(range(-18, 19)) + [33, -33]:
+        vreq({"x": 1.1}, "power<%d>(x)" % n)
+        vreq({"x": -0.9}, "x**%d" % n)
+    for c in tab["constants"]:
+        vreq({}, c[0] + "*1")
     gv = L.Gen(rng, tab, safe_only=True)
     for _ in range(n_val):
         f = gv.formula(6)
@@ -276,7 +304,8 @@ def run(ck):
         "rule": "distinct = distinct canonical implementation answers (rendered tree / error class / value bits); every request parses a generated formula",
         "exhaustive": False, "disagreements": disagreements,
         "traces_validated_against_impl": len(reqs) - hist["skipped-by-model"],
-        "streams": {"corpus": len(corpus), "valid": n_valid, "malformed": n_mal, "value": n_val, "rewrite": n_q},
+        "streams": {"corpus": len(corpus), "valid": n_valid, "malformed": n_mal, "value": n_val, "rewrite": n_q,
+                    "directed": sum(1 for r in reqs if r[0] == "directed")},
         "answers": hist, "error_kinds": errk, "mutation_kinds": mstats,
         "generator": {"valid": g.stats, "value": gv.stats},
         "tables": {k: len(v) for k, v in tab.items()},
